@@ -478,6 +478,30 @@ def run_oracles(seed, n, out):
                 else:
                     o["viol"].append({"law": "equivalent spellings of an annotation dispatch differently", **wit})
                 break
+        # C11, whatever the annotation normalises to (Literal, tuple[...] products, the shallow list / dict element
+        # checks, unions of those): alone in a function, the annotated method runs exactly for the values that
+        # isinstance(value, T) accepts — the generated checking code against the type's own check
+        T = A
+        try:
+            fi = build_fn(w, names, [(a, False)], [])
+        except Exception:  # noqa
+            fi = None
+        if fi is not None and a not in (["cls", C_OBJECT], ["any"], ["missing"]):
+            o11 = orc("C11")
+            for v in corpus(w, rng):
+                if isinstance(v, type) or typing.get_origin(v) is not None or v is typing.Any:
+                    continue  # passed types are C14's subject (a runtime protocol may hold of a class object itself)
+                try:
+                    exp = isinstance(v, T)
+                except TypeError:
+                    continue  # type[...] and parametrised generics are not isinstance targets
+                r = outcome(fi, v)
+                o11["n"] += 1
+                if exp:
+                    o11["nontrivial"] += 1
+                if (r == ("ran", 0)) != exp or r[0] not in ("ran", "nomethod"):
+                    o11["viol"].append({"law": "the annotated method runs exactly for the values isinstance accepts", "value": repr(v)[:60], "isinstance": exp, "outcome": r, "kind": "respell", **desc})
+                    break
         # Literal exactness through typing.Literal (C11): alone in a function, a Literal matches exactly its values
         if a[0] == "literal":
             o11 = orc("C11")
